@@ -20,7 +20,8 @@ for pid in ids:
         "engine": "egv",
         "level_claimed": {"category": P["level"], "text": P["level_text"], "design_ref": "DESIGN.md §6 " + pid},
         "level_note": P["level_note"],
-        "technique": P.get("technique", "TLA+ specification; TLC bounded model checking of the design (MC_%s) + TLC trace validation (Trace_%s) of events recorded from the real crate" % (pid, pid)),
+        "technique": P.get("technique", "TLA+ specification; TLC bounded model checking of the design (MC_%s) + TLC trace validation (Trace_%s) of events recorded from the real crate" % (pid, pid))
+                     + ("; TLAPS proofs of unbounded lemmas / inductive invariants (%s, thorough tier, never deciding the check)" % ", ".join(P["proofs"]) if P.get("proofs") else ""),
     })
 na = [{"property_id": p, "reason": NOT_APPLICABLE.get(p, "check not built yet (work in progress); not claimed")} for p in ids if p not in PROPS or PROPS[p].get("wip")]
 m = {
